@@ -28,7 +28,20 @@ def load(prop=None, k=None):
     return ms
 
 
-def run(ms, keep=False, verbose=True):
+def run_parallel(ms, jobs):
+    """split the mutants over `jobs` worker processes, each with its own scratch copy and target dir"""
+    import concurrent.futures
+    chunks = [ms[i::jobs] for i in range(jobs)]
+    res = []
+    with concurrent.futures.ProcessPoolExecutor(max_workers=jobs) as ex:
+        futs = [ex.submit(run, ch, False, True, os.path.join(VERIF, '.cache', 'target-w%d' % i))
+                for i, ch in enumerate(chunks) if ch]
+        for f in futs:
+            res += f.result()
+    return res
+
+
+def run(ms, keep=False, verbose=True, target=None):
     scratch = tempfile.mkdtemp(prefix='sr_mut_')
     evd = tempfile.mkdtemp(prefix='sr_mut_ev_')
     res = []
@@ -57,7 +70,9 @@ def run(ms, keep=False, verbose=True):
                 continue
             status, note = 'OK', ''
             for prop in m['props']:
-                env = dict(os.environ, VERIF_EVIDENCE_DIR=evd)
+                env = dict(os.environ, VERIF_EVIDENCE_DIR=evd, VERIF_TIER='quick')
+                if target:
+                    env['VERIF_TARGET_DIR'] = target
                 r = sh('%s/check %s --repo %s' % (VERIF, prop, scratch), env=env)
                 out = r.stdout
                 fired = [l for l in out.splitlines() if l.strip().startswith('rule ')]
@@ -90,8 +105,9 @@ if __name__ == '__main__':
     ap.add_argument('-k')
     ap.add_argument('--prop')
     ap.add_argument('--keep', action='store_true')
+    ap.add_argument('-j', type=int, default=1)
     a = ap.parse_args()
-    res = run(load(a.prop, a.k), a.keep)
+    res = run_parallel(load(a.prop, a.k), a.j) if a.j > 1 else run(load(a.prop, a.k), a.keep)
     bad = [r for r in res if r[1] not in ('OK', 'SKIP')]
     print('%d mutants: %d ok, %d skipped, %d bad' % (len(res), len([r for r in res if r[1] == 'OK']),
                                                      len([r for r in res if r[1] == 'SKIP']), len(bad)))
